@@ -66,8 +66,18 @@ def _mk_config(spec):
 
 
 def _resolved(cfg):
-    """the configured counts as the implementation reports them"""
-    return cfg.size, cfg.flat_count, cfg.capstone_count
+    """the CONFIGURED counts: an explicitly given count (zero included) is what was configured;
+    a count left unset is the standard one for the size, observed on a plain `Config(size=n)`
+    (those defaults are tied to the model's table exhaustively by `_tie_configs`).  The
+    implementation's own resolution (`cfg.flat_count`) is deliberately not trusted here: if it
+    resolves an explicit count to something else, the initial position no longer holds the
+    configured number of stones and `inv` must say so."""
+    import tak
+
+    std = tak.Config(size=cfg.size)
+    pieces = cfg.pieces if cfg.pieces is not None else std.flat_count
+    caps = cfg.capstones if cfg.capstones is not None else std.capstone_count
+    return cfg.size, pieces, caps
 
 
 def _spec_json(spec):
@@ -76,7 +86,7 @@ def _spec_json(spec):
 
 def _config_specs(rng, size, n):
     """standard, partially specified and custom (incl. tiny) configurations"""
-    out = [(size, None, None), (size, 2, None), (size, None, 1), (size, 1, 1), (size, 3, 0), (size, size, 2)]
+    out = [(size, None, None), (size, 2, None), (size, None, 1), (size, 1, 1), (size, 3, 0), (size, size, 2), (size, None, 0), (size, 0, 1)]
     std = gen.STD_PIECES[size]
     while len(out) < n:
         out.append(
